@@ -559,6 +559,31 @@ def c17_8(R):
                         clo_ok = True
     unseg = any(nonzero_test(c, True) is not None and trace(b, nonzero_test(c, True)).last_field == "ThisPoll.unsegmented_data" or nonzero_test(c, False) is not None and trace(b, nonzero_test(c, False)).last_field == "ThisPoll.unsegmented_data"
                 for blk in b.blocks if not blk.cleanup and blk.term.kind == "switch" for c in [switch_cond(b, blk.term)[0]])
+    if not anyc:
+        # the same predicate written as an explicit loop: `for s in iter_mut_for_sending(None) { if s.send_count() == 0 { return true } } false`
+        nexts = []
+        for t in b.calls():
+            if call_matches(t, ("Iterator::next",)) and t.args:
+                src = trace(b, t.args[0])
+                for _ in range(3):
+                    if src.kind == "call" and call_matches(src.root[1], ("IntoIterator::into_iter", "Iterator::by_ref")) and src.root[1].args:
+                        src = trace(b, src.root[1].args[0])
+                if src.kind == "call" and call_matches(src.root[1], ("Segments::iter_mut_for_sending",)) and classify(b, src.root[1].args[1]) == "None":
+                    nexts.append(t)
+        it_ok = len(nexts) == 1
+        rets = [d for d in b.all_defs(0) if isinstance(d, Stmt) and d.rv.kind == "use" and d.rv.ops[0].kind == "const"]
+        falses = [d for d in rets if d.rv.ops[0].scalar in (0, False)]
+        trues = [d for d in rets if d.rv.ops[0].scalar not in (0, False)]
+        never_sent = False
+        for d in trues:
+            for c, truth, desc, *_ in controlling(b, d.bb):
+                z = zero_test(c, truth)
+                if z is not None:
+                    zt = trace(b, z)
+                    if zt.kind == "call" and call_matches(zt.root[1], ("SegmentForSending::send_count",)):
+                        never_sent = True
+        exhausted = bool(falses) and all(any(desc.endswith("Iterator::next=None") or (desc.startswith("discr:call:") and desc.endswith("::next=None")) for _c, _t, desc, *_ in controlling(b, d.bb)) for d in falses)
+        clo_ok = never_sent and exhausted and len(rets) == len(b.all_defs(0))
     if it_ok and clo_ok and unseg:
         R.ok("unsent_data_exists", b.name, "unsegmented_data > 0 || any(send_count() == 0)")
     else:
